@@ -9,6 +9,7 @@ mod fixedwindow;
 mod fsutil;
 mod jsonline;
 mod levelgate;
+mod registry;
 mod pattern;
 mod literals;
 mod reconfig;
@@ -30,6 +31,7 @@ fn main() {
         "routing" => routing::main(rest),
         "cfgbuild" => cfgbuild::main(rest),
         "fanout" => fanout::main(rest),
+        "registry" => registry::main(rest),
         "rolltrace" => rolltrace::main(rest),
         "configfile" => configfile::main(rest),
         "timetrig" => timetrig::main(rest),
